@@ -440,7 +440,7 @@ func init() {
 			return concatStr(parts)
 		},
 		"strings.Split": func(r *Run, fr *frame, a []value) value {
-			parts := strings.Split(opaqueText(a[0]), opaqueText(a[1]))
+			parts := strings.Split(r.textOf(a[0]), r.textOf(a[1]))
 			out := make([]value, len(parts))
 			for i, p := range parts {
 				out[i] = p
@@ -448,10 +448,10 @@ func init() {
 			return out
 		},
 		"strings.Count": func(r *Run, fr *frame, a []value) value {
-			return strings.Count(opaqueText(a[0]), opaqueText(a[1]))
+			return strings.Count(r.textOf(a[0]), r.textOf(a[1]))
 		},
 		"strings.Repeat": func(r *Run, fr *frame, a []value) value {
-			return strings.Repeat(opaqueText(a[0]), int(asInt64(r.concretizeOpt(fr, nil, a[1]))))
+			return strings.Repeat(r.textOf(a[0]), int(asInt64(r.concretizeOpt(fr, nil, a[1]))))
 		},
 		"strings.Contains": func(r *Run, fr *frame, a []value) value {
 			return r.strFind(a[0], a[1], 0)
@@ -510,6 +510,14 @@ func (r *Run) strFind(sv, subv value, mode int) value {
 		res = p.Or(res, at(off))
 	}
 	return fromBoolTerm(res)
+}
+
+// textOf: like opaqueText, but a finite-choice string is split into its concrete cases (the path forks).
+func (r *Run) textOf(v value) string {
+	if e, ok := v.(*enumStr); ok {
+		return e.choices[r.concretize(e.idx, "text of a finite-choice string", 64)]
+	}
+	return opaqueText(v)
 }
 
 // opaqueText: the concrete text of a string; symbolic parts become a placeholder (message texts built
@@ -814,6 +822,12 @@ func (r *Run) formatOne(fr *frame, verb string, arg value) value {
 		}
 		return "\x00sym" + string(v) + "\x00"
 	case *enumStr:
+		// a selector that the path condition has pinned to one value gives a concrete text
+		if a.idx.op == "var" {
+			if rg := r.rangeVar(a.idx); rg.lo == rg.hi && int(rg.lo) < len(a.choices) {
+				return fmt.Sprintf(verb, a.choices[rg.lo])
+			}
+		}
 		// format every choice; the result is again a finite-choice string on the same selector
 		out := &enumStr{idx: a.idx}
 		for _, c := range a.choices {
